@@ -33,6 +33,8 @@ import (
 //	                preceded by `X.Unlock()`, with nothing but plain values returned, and no other
 //	                use of X's lock methods: `defer X.Unlock()` after the Lock, Unlocks removed
 //	                (differs from the original only if the section panics)
+//	range-to-index  `for k, v := range xs { B }` over a slice held in a local that B does not assign
+//	                (no closures in B) becomes `for k := 0; k < len(xs); k++ { v := xs[k]; B }`
 //	swap-compare    `a == b` -> `b == a`, `a != b` -> `b != a`, `a < b` -> `b > a`, … when neither
 //	                operand contains a call, a receive or an index/slice expression that could
 //	                panic in a different order
@@ -58,7 +60,7 @@ func MechRefactor(kind, dir string) (int, error) {
 				// one load, every rewrite in turn on the same syntax trees (the type
 				// information stays valid: nodes are mutated in place, new nodes are
 				// treated conservatively by the later rewrites)
-				kinds = []string{"switch-to-if", "split-and", "invert-if", "nest-else", "unlock-to-defer", "rotate-select", "swap-compare", "rename-locals", "reverse-decls"}
+				kinds = []string{"range-to-index", "switch-to-if", "split-and", "invert-if", "nest-else", "unlock-to-defer", "rotate-select", "swap-compare", "rename-locals", "reverse-decls"}
 			}
 			for _, k := range kinds {
 				switch k {
@@ -80,6 +82,8 @@ func MechRefactor(kind, dir string) (int, error) {
 					n += mechSplitAnd(f)
 				case "unlock-to-defer":
 					n += mechUnlockToDefer(f, p.Fset)
+				case "range-to-index":
+					n += mechRangeToIndex(f, pk.TypesInfo)
 				default:
 					return 0, fmt.Errorf("unknown rewrite %q", kind)
 				}
@@ -680,7 +684,113 @@ func mechUnlockToDefer(f *ast.File, fset *token.FileSet) int {
 
 // MechKinds lists the rewrites.
 func MechKinds() []string {
-	ks := []string{"rename-locals", "rotate-select", "invert-if", "swap-compare", "nest-else", "reverse-decls", "switch-to-if", "split-and", "unlock-to-defer"}
+	ks := []string{"range-to-index", "rename-locals", "rotate-select", "invert-if", "swap-compare", "nest-else", "reverse-decls", "switch-to-if", "split-and", "unlock-to-defer"}
 	sort.Strings(ks)
 	return ks
+}
+
+// mechRangeToIndex rewrites range loops over local slices into index loops.
+func mechRangeToIndex(f *ast.File, info *types.Info) int {
+	n := 0
+	fresh := 0
+	var visit func(list []ast.Stmt)
+	rewrite := func(st ast.Stmt) ast.Stmt {
+		rs, ok := st.(*ast.RangeStmt)
+		if !ok || rs.Tok != token.DEFINE {
+			return st
+		}
+		x, ok := rs.X.(*ast.Ident)
+		if !ok {
+			return st
+		}
+		t := info.TypeOf(rs.X)
+		if t == nil {
+			return st
+		}
+		if _, isSlice := t.Underlying().(*types.Slice); !isSlice {
+			return st
+		}
+		var key, val *ast.Ident
+		if rs.Key != nil {
+			key, _ = rs.Key.(*ast.Ident)
+			if key == nil {
+				return st
+			}
+		}
+		if rs.Value != nil {
+			val, _ = rs.Value.(*ast.Ident)
+			if val == nil {
+				return st
+			}
+		}
+		if key != nil && key.Name == "_" {
+			key = nil
+		}
+		bad := false
+		ast.Inspect(rs.Body, func(c ast.Node) bool {
+			switch y := c.(type) {
+			case *ast.FuncLit:
+				bad = true
+			case *ast.AssignStmt:
+				for _, l := range y.Lhs {
+					if id, ok := l.(*ast.Ident); ok && (id.Name == x.Name || (key != nil && id.Name == key.Name)) {
+						bad = true
+					}
+				}
+			case *ast.IncDecStmt:
+				if id, ok := y.X.(*ast.Ident); ok && key != nil && id.Name == key.Name {
+					bad = true
+				}
+			case *ast.UnaryExpr:
+				if id, ok := y.X.(*ast.Ident); ok && y.Op == token.AND && (id.Name == x.Name || (key != nil && id.Name == key.Name)) {
+					bad = true
+				}
+			}
+			return !bad
+		})
+		if bad {
+			return st
+		}
+		idx := key
+		if idx == nil || idx.Name == "_" {
+			fresh++
+			idx = ast.NewIdent(fmt.Sprintf("mechI%d", fresh))
+		}
+		body := rs.Body
+		if val != nil && val.Name != "_" {
+			decl := &ast.AssignStmt{Lhs: []ast.Expr{ast.NewIdent(val.Name)}, Tok: token.DEFINE, Rhs: []ast.Expr{&ast.IndexExpr{X: ast.NewIdent(x.Name), Index: ast.NewIdent(idx.Name)}}}
+			body = &ast.BlockStmt{List: append([]ast.Stmt{decl}, rs.Body.List...)}
+		}
+		n++
+		return &ast.ForStmt{
+			Init: &ast.AssignStmt{Lhs: []ast.Expr{ast.NewIdent(idx.Name)}, Tok: token.DEFINE, Rhs: []ast.Expr{&ast.BasicLit{Kind: token.INT, Value: "0"}}},
+			Cond: &ast.BinaryExpr{X: ast.NewIdent(idx.Name), Op: token.LSS, Y: &ast.CallExpr{Fun: ast.NewIdent("len"), Args: []ast.Expr{ast.NewIdent(x.Name)}}},
+			Post: &ast.IncDecStmt{X: ast.NewIdent(idx.Name), Tok: token.INC},
+			Body: body,
+		}
+	}
+	visit = func(list []ast.Stmt) {
+		for i, st := range list {
+			if ls, ok := st.(*ast.LabeledStmt); ok {
+				_ = ls // labelled loops are left alone (continue/break labels refer to them)
+				continue
+			}
+			list[i] = rewrite(st)
+		}
+	}
+	ast.Inspect(f, func(c ast.Node) bool {
+		switch y := c.(type) {
+		case *ast.BlockStmt:
+			visit(y.List)
+		case *ast.CaseClause:
+			visit(y.Body)
+		case *ast.CommClause:
+			visit(y.Body)
+		}
+		return true
+	})
+	if n > 0 {
+		stripComments(f)
+	}
+	return n
 }
